@@ -1147,7 +1147,8 @@ fn judge(prop: &str, it: &Item, scen: &Scenario, w: &World, eo: &ExecOut, counts
             // an injected ENOENT / EEXIST / ENOTEMPTY is a claim about the state of the directory ("it is already gone / there");
             // the library is entitled to believe the kernel, so "success for work not done" is only judged for errnos that
             // say nothing about the state
-            let state_claim = eo.faults.iter().any(|(_, f)| matches!(f.as_str(), "ENOENT" | "EEXIST" | "ENOTEMPTY"));
+            // (EINVAL from readlinkat is the kernel's way of saying "this is not a symlink": a claim about the object as well)
+            let state_claim = eo.faults.iter().any(|(i, f)| matches!(f.as_str(), "ENOENT" | "EEXIST" | "ENOTEMPTY") || (f == "EINVAL" && eo.events.get(*i).map(|e| e.name == "readlinkat").unwrap_or(false)));
             if o.ok && eo.applied.is_empty() && !state_claim {
                 if let Some(why) = postcondition(scen, o) { v.push((format!("false-success:{}", scen.op.name), why)); }
             }
